@@ -24,13 +24,13 @@ def configs(tier, seed):
                 continue
             variants = [""]
             if kind in ("ghf", "ghf_cpmc"):
-                variants = ["", "nonorth"]
+                variants = ["", "nonorth"] + (["complex", "complex_orth"] if kind == "ghf" else [])
             if kind == "rhf":
-                variants = ["", "nonorth", "complex"]
+                variants = ["", "nonorth", "complex", "complex_orth"]
             if kind in ("uhf", "uhf_cpmc"):
-                variants = ["same", "", "nonorth"] + (["complex_same", "complex"] if kind == "uhf" else [])
+                variants = ["same", "", "nonorth"] + (["complex_same", "complex", "complex_orth"] if kind == "uhf" else [])
             if kind == "noci":
-                variants = ["", "3det", "nonorth"] if thorough else ["", "nonorth"]
+                variants = (["", "3det", "nonorth"] if thorough else ["", "nonorth"]) + ["complex", "complex_orth"]
             if kind == "multislater":
                 ndet = len(trials.all_dets(n, na, nb))
                 variants = ["ref:%d" % k for k in range(ndet)] if (thorough or ndet <= 4) else \
@@ -43,6 +43,13 @@ def configs(tier, seed):
                 if trials.admitted(kind, n, na, nb):
                     v = {"uhf": "same", "uhf_cpmc": "same", "multislater": "ref:0"}.get(kind, "")
                     out.append(dict(kind=kind, n=n, na=na, nb=nb, variant=v, seed=seed, tier=tier, lite=True))
+    # minority-spin-up sectors (n_dn > n_up): admissible for unrestricted walkers only (a restricted walker holds the
+    # majority block first); every kind that admits the mirrored sector must admit these
+    for kind in trials.KINDS_ALL:
+        for (n, na, nb) in ([(3, 1, 2), (4, 1, 2), (4, 1, 3), (4, 2, 3)] if thorough else [(3, 1, 2)]):
+            if trials.admitted(kind, n, nb, na) and trials.admitted(kind, n, na, nb) and kind not in trials.CLOSED_ONLY:
+                v = {"uhf": "", "uhf_cpmc": "", "multislater": "ref:0"}.get(kind, "")
+                out.append(dict(kind=kind, n=n, na=na, nb=nb, variant=v, seed=seed, tier=tier, lite=(n == 4)))
     cost = lambda c: -((3 if c["kind"] in ("multislater", "GCISD", "UCISD", "ucisd") else 1) * (3 ** (c["n"] * c["na"]) + 2 ** (c["n"] * (c["na"] + c["nb"]))))
     out.sort(key=cost)
     return out
@@ -162,7 +169,7 @@ def job(cfg):
                     n_param_sets=len(tc.params), param_labels=[p.label for p in tc.params][:6],
                     first_walker_up=Wa[1].tolist() if False else str(np.round(Wa[1], 3).tolist())))
     # one-particle density matrix
-    if kind in ("rhf", "uhf", "ghf", "noci") and cfg["variant"] in ("", "same", "3det"):
+    if kind in ("rhf", "uhf", "ghf", "noci") and cfg["variant"] in ("", "same", "3det", "complex_orth"):
         jnp, wf = trials.lib()
         for p in tc.params:
             if kind == "noci" and p.label != "dense" and not thorough:
@@ -174,8 +181,14 @@ def job(cfg):
                 d_ref = fock.rdm1_full(n, na + nb, full)
             else:
                 d_ref = fock.rdm1(p.ket, sec)
-            d_ref_sym = 0.5 * (d_ref + d_ref.transpose(0, 2, 1))
-            e = np.abs(d_impl - d_ref_sym).max()
+            if cfg["variant"].startswith("complex"):
+                # complex orbitals: the density matrix is Hermitian, not symmetric; "<a+ a>" leaves the index order open,
+                # so either <a+_p a_q> or its transpose <a+_q a_p> is accepted (uhf reports C C^dagger, the latter)
+                d_ref_sym = d_ref
+                e = min(np.abs(d_impl - d_ref).max(), np.abs(d_impl - d_ref.transpose(0, 2, 1)).max())
+            else:
+                d_ref_sym = 0.5 * (d_ref + d_ref.transpose(0, 2, 1))
+                e = np.abs(d_impl - d_ref_sym).max()
             res.add(states=1, transitions=1, evaluations=1, traces=1)
             if not e <= 1e-9:
                 res.violation("%s/rdm1" % kind, dict(cfg, entry="rdm1", label=p.label), dict(err=float(e), impl=d_impl, ref=d_ref_sym))
